@@ -355,6 +355,50 @@ let op_truncate = function
           | Trunc.OAnsi a -> "A" ^ string_of_int (int_of_n a)) out)
   | _ -> "BADARGS"
 
+(* ---- machine integers (C03) *)
+let rec bin_of_pos = function Coq_xH -> "1" | Coq_xO p -> bin_of_pos p ^ "0" | Coq_xI p -> bin_of_pos p ^ "1"
+let bin_of_n = function N0 -> "0" | Npos p -> bin_of_pos p
+let digits_of s = L.init (S.length s) (fun i -> n_of_int (Char.code (S.get s i) - 48))
+
+(* hunk_numbers <start[,len];start[,len];...> -> NONE | start,len;... (binary) *)
+let op_hunk_numbers = function
+  | [ cs ] ->
+      let coord e = match S.split_on_char ',' e with
+        | [ a ] -> (digits_of a, None)
+        | [ a; b ] -> (digits_of a, Some (digits_of b))
+        | _ -> failwith "bad coord" in
+      let coords = if cs = "" then [] else L.map coord (S.split_on_char ';' cs) in
+      (match Numbers.parse_hunk_numbers coords with
+       | None -> "OK\tNONE"
+       | Some l -> "OK\t" ^ S.concat ";" (L.map (fun (n, d) -> bin_of_n n ^ "," ^ bin_of_n d) l)
+                   ^ "\t" ^ bin_of_n (Numbers.hunk_max l))
+  | _ -> "BADARGS"
+
+(* bump <k> <start digits> -> counter after k lines (binary) *)
+let op_bump = function
+  | [ k; c ] ->
+      (match Numbers.parse_usize (digits_of c) with
+       | None -> "OK\tNONE"
+       | Some n -> "OK\t" ^ bin_of_n (Numbers.bump (nat_of_int (int_of_string k)) n))
+  | _ -> "BADARGS"
+
+(* grep_sections <hex of line> <s-e;s-e;...> -> M:hex|N:hex|... ; character starts from UTF-8 *)
+let op_grep_sections = function
+  | [ h; subs ] ->
+      let bytes = hex_decode h in
+      let line = L.init (S.length bytes) (fun i ->
+          let c = Char.code (S.get bytes i) in (nat_of_int c, (c land 0xC0) <> 0x80)) in
+      let sub e = match S.split_on_char '-' e with
+        | [ a; b ] -> (nat_of_int (int_of_string a), nat_of_int (int_of_string b))
+        | _ -> failwith "bad submatch" in
+      let sl = if subs = "" then [] else L.map sub (S.split_on_char ';' subs) in
+      (match GrepSections.make_style_sections line sl with
+       | None -> "OK\tPANIC"
+       | Some secs -> "OK\t" ^ S.concat "|" (L.map (fun (k, t) ->
+           (match k with GrepSections.Match -> "M:" | GrepSections.NonMatch -> "N:")
+           ^ hex_encode (S.init (L.length t) (fun i -> Char.chr (int_of_nat (fst (L.nth t i)))))) secs))
+  | _ -> "BADARGS"
+
 (* blame_run n keys gitflags *)
 let op_blame_run = function
   | [ n; keys; flags ] ->
@@ -377,6 +421,9 @@ let op_blame_spec = function
 let dispatch = function
   | "wrap_line" :: args -> op_wrap_line args
   | "truncate" :: args -> op_truncate args
+  | "hunk_numbers" :: args -> op_hunk_numbers args
+  | "bump" :: args -> op_bump args
+  | "grep_sections" :: args -> op_grep_sections args
   | "lineno_unified" :: args -> op_lineno_unified args
   | "lineno_sbs" :: args -> op_lineno_sbs args
   | "opt_resolve" :: args -> op_opt_resolve args
